@@ -640,3 +640,247 @@ theorem core_run (F : Oracle) (cfg : WbCfg) (cap : Nat) (a : A) (evs : List Ev) 
 
 end StreamActor
 end RedisVerif
+
+namespace RedisVerif
+namespace StreamActor
+
+open _root_.RedisVerif.Stream
+
+/-! ## nothing is lost while the process keeps running below the mailbox capacity and the
+back-pressure threshold -/
+
+def estOf (ds : List SDelta) : Nat := (ds.map (fun d => estimate d.2)).foldl (· + ·) 0
+
+theorem estOf_nil : estOf [] = 0 := rfl
+
+theorem foldl_add_shift (l : List Nat) (a : Nat) : l.foldl (· + ·) a = a + l.foldl (· + ·) 0 := by
+  induction l generalizing a with
+  | nil => simp
+  | cons x l ih => simp only [List.foldl_cons]; rw [ih (a + x), ih (0 + x)]; omega
+
+theorem estOf_cons (d : SDelta) (ds : List SDelta) : estOf (d :: ds) = estimate d.2 + estOf ds := by
+  unfold estOf
+  simp only [List.map_cons, List.foldl_cons]
+  rw [foldl_add_shift]; omega
+
+theorem estOf_append (a b : List SDelta) : estOf (a ++ b) = estOf a + estOf b := by
+  induction a with
+  | nil => simp [estOf_nil]
+  | cons d a ih => simp only [List.cons_append, estOf_cons, ih]; omega
+
+/-- the byte estimates a message carries -/
+def msgEst : Msg → Nat
+  | .pushDelta d => estimate d.2
+  | .pushDeltas ds => estOf ds
+  | _ => 0
+
+def mboxEst : List Msg → Nat
+  | [] => 0
+  | m :: r => msgEst m + mboxEst r
+
+theorem mboxEst_append (l : List Msg) (m : Msg) : mboxEst (l ++ [m]) = mboxEst l + msgEst m := by
+  induction l with
+  | nil => simp [mboxEst]
+  | cons a l ih => simp only [List.cons_append, mboxEst, ih]; omega
+
+/-- what an event adds to the byte budget -/
+def evEst : Ev → Nat
+  | .send d => estimate d.2
+  | .reqPush d => estimate d.2
+  | _ => 0
+
+def evsEst : List Ev → Nat
+  | [] => 0
+  | e :: r => evEst e + evsEst r
+
+/-- the process keeps running: no shutdown of the bridge or of the actor is requested -/
+def Ev.keepsRunning : Ev → Bool
+  | .stopBridge => false
+  | .reqShutdown => false
+  | _ => true
+
+/-- with room for the whole batch every update is accepted -/
+theorem pushLoop_all_accepted (cfg : WbCfg) (x : PX) (ds : List SDelta)
+    (h : x.size + estOf ds ≤ cfg.backpressure) :
+    (pushLoop cfg x ds).rejected = [] ∧ (pushLoop cfg x ds).skipped = [] ∧
+    (pushLoop cfg x ds).x.size = x.size + estOf ds := by
+  induction ds generalizing x with
+  | nil => simp [pushLoop, estOf_nil]
+  | cons d rest ih =>
+    rw [estOf_cons] at h
+    have hlt : x.size < cfg.backpressure := by unfold estimate at h; omega
+    unfold pushLoop
+    cases hp : pushX cfg x d with
+    | mk x' ok =>
+      cases ok with
+      | false => have := (pushX_false hp).2; omega
+      | true =>
+        obtain ⟨_, _, hs, _, _⟩ := pushX_true hp
+        have := ih x' (by rw [hs]; omega)
+        simp only
+        refine ⟨this.1, this.2.1, ?_⟩
+        rw [this.2.2, hs, estOf_cons]; omega
+
+theorem flushX_size_le (F : Oracle) (sz now : Nat) (w : World) (x : PX) : (flushX F sz now w x).2.1.size ≤ x.size := by
+  unfold flushX
+  split <;> simp
+
+theorem doFlush_quiet (F : Oracle) (sz : Nat) (a : A) : (doFlush F sz a).x.size ≤ a.x.size := by
+  have := flushX_size_le F sz a.now a.w a.x
+  unfold doFlush
+  split <;> rename_i heq <;> rw [heq] at this <;> exact this
+
+theorem maybeFlush_quiet (F : Oracle) (cfg : WbCfg) (sz : Nat) (a : A) : (maybeFlush F cfg sz a).x.size ≤ a.x.size := by
+  unfold maybeFlush
+  split
+  · exact doFlush_quiet F sz a
+  · exact Nat.le_refl _
+
+/-- quiet state: everything alive, no `Shutdown` queued, `k` bounds the mailbox, `E` bounds the
+    bytes on their way, and nothing was rejected, skipped or dropped so far -/
+def Quiet (a : A) (k E : Nat) : Prop :=
+  a.alive = true ∧ a.bridge = true ∧ a.mailbox.length ≤ k ∧
+  a.x.size + mboxEst a.mailbox + estOf a.sink ≤ E ∧
+  a.rejected = [] ∧ a.skipped = [] ∧ a.dropped = [] ∧ Msg.shutdown ∉ a.mailbox
+
+theorem not_mem_append_single {l : List Msg} {m : Msg} (h : Msg.shutdown ∉ l) (hm : m ≠ .shutdown) :
+    Msg.shutdown ∉ l ++ [m] := by
+  intro hc
+  rcases List.mem_append.mp hc with hc | hc
+  · exact h hc
+  · simp only [List.mem_singleton] at hc; exact hm hc.symm
+
+theorem quiet_step (F : Oracle) (cfg : WbCfg) (cap : Nat) (a : A) (ev : Ev) (k E : Nat)
+    (hq : Quiet a k E) (hrun : ev.keepsRunning = true) (hk : k < cap) (hE : E + evEst ev ≤ cfg.backpressure) :
+    Quiet (step F cfg cap a ev) (k + 1) (E + evEst ev) := by
+  obtain ⟨hal, hbr, hml, hsz, hr, hs, hd, hns⟩ := hq
+  have hts : ∀ m, trySend cap a m = ({ a with mailbox := a.mailbox ++ [m] }, true) := by
+    intro m
+    unfold trySend
+    have : (a.alive && decide (a.mailbox.length < cap)) = true := by simp [hal]; omega
+    simp [this]
+  cases ev with
+  | send e =>
+    simp only [step]
+    rw [if_pos hbr]
+    refine ⟨hal, hbr, by simp only; omega, ?_, hr, hs, hd, hns⟩
+    simp only [evEst, estOf_append, estOf_cons, estOf_nil]; omega
+  | drain =>
+    simp only [step]
+    rw [if_pos hbr]
+    unfold sendBatch
+    split
+    · rename_i he
+      have : a.sink = [] := by simpa using he
+      refine ⟨hal, hbr, by simp only; omega, ?_, hr, hs, hd, hns⟩
+      simp only [estOf_nil, evEst]; rw [this] at hsz; simp only [estOf_nil] at hsz; omega
+    · have hts' : trySend cap { a with sink := [] } (.pushDeltas a.sink) =
+          ({ a with sink := [], mailbox := a.mailbox ++ [.pushDeltas a.sink] }, true) := by
+        unfold trySend
+        have : (a.alive && decide (a.mailbox.length < cap)) = true := by simp [hal]; omega
+        simp [this]
+      rw [hts']
+      refine ⟨hal, hbr, by simp; omega, ?_, hr, hs, hd, not_mem_append_single hns (by simp)⟩
+      simp only [mboxEst_append, msgEst, estOf_nil, evEst]; omega
+  | bridgeTick =>
+    simp only [step]
+    rw [if_pos hbr, hts]
+    refine ⟨hal, hbr, by simp; omega, ?_, hr, hs, hd, not_mem_append_single hns (by simp)⟩
+    simp only [mboxEst_append, msgEst, evEst]; omega
+  | stopBridge => simp [Ev.keepsRunning] at hrun
+  | reqShutdown => simp [Ev.keepsRunning] at hrun
+  | reqPush e =>
+    simp only [step]
+    have : trySend cap { a with sent := a.sent ++ [e.1] } (.pushDelta e) =
+        ({ a with sent := a.sent ++ [e.1], mailbox := a.mailbox ++ [.pushDelta e] }, true) := by
+      unfold trySend
+      have : (a.alive && decide (a.mailbox.length < cap)) = true := by simp [hal]; omega
+      simp [this]
+    rw [this]
+    refine ⟨hal, hbr, by simp; omega, ?_, hr, hs, hd, not_mem_append_single hns (by simp)⟩
+    simp only [mboxEst_append, msgEst, evEst]; omega
+  | reqFlush =>
+    simp only [step, hts]
+    refine ⟨hal, hbr, by simp; omega, ?_, hr, hs, hd, not_mem_append_single hns (by simp)⟩
+    simp only [mboxEst_append, msgEst, evEst]; omega
+  | advance ms => exact ⟨hal, hbr, by simp only [step]; omega, by simp only [step, evEst]; omega, hr, hs, hd, hns⟩
+  | actor sz =>
+    simp only [step]
+    rw [if_pos hal]
+    cases hm : a.mailbox with
+    | nil =>
+      simp only
+      refine ⟨hal, hbr, by rw [hm]; simp, ?_, hr, hs, hd, hns⟩
+      rw [hm] at hsz; simp only [evEst, mboxEst] at hsz ⊢; rw [hm]; simp only [mboxEst]; omega
+    | cons m rest =>
+      rw [hm] at hml hsz hns
+      simp only [List.length_cons, mboxEst] at hml hsz
+      simp only [evEst, Nat.add_zero] at hE ⊢
+      have hns' : Msg.shutdown ∉ rest := fun h => hns (List.mem_cons_of_mem _ h)
+      cases m with
+      | pushDelta e =>
+        simp only [msgEst] at hsz
+        have hlt : a.x.size < cfg.backpressure := by unfold estimate at hsz; omega
+        cases hp : pushX cfg a.x e with
+        | mk x' ok =>
+          cases ok with
+          | false => have := (pushX_false hp).2; omega
+          | true =>
+            obtain ⟨_, _, hs', _, _⟩ := pushX_true hp
+            simp only [handle, hp]
+            obtain ⟨_, s1, s2, _, _, s5, s6, s7, s8, s9, _⟩ := maybeFlush_spec F cfg sz { a with mailbox := rest, x := x', accepted := a.accepted ++ [e.1] }
+            have hq := maybeFlush_quiet F cfg sz { a with mailbox := rest, x := x', accepted := a.accepted ++ [e.1] }
+            refine ⟨by rw [s8]; exact hal, by rw [s9]; exact hbr, by rw [s2]; simp only; omega, ?_, by rw [s5]; exact hr, by rw [s6]; exact hs, by rw [s7]; exact hd, by rw [s2]; exact hns'⟩
+            rw [s1, s2]; simp only at hq ⊢; omega
+      | pushDeltas ds =>
+        simp only [msgEst] at hsz
+        obtain ⟨r1, r2, r3⟩ := pushLoop_all_accepted cfg a.x ds (by omega)
+        simp only [handle]
+        obtain ⟨_, s1, s2, _, _, s5, s6, s7, s8, s9, _⟩ := maybeFlush_spec F cfg sz
+          { a with mailbox := rest, x := (pushLoop cfg a.x ds).x
+                   accepted := a.accepted ++ (pushLoop cfg a.x ds).accepted.map (·.1)
+                   rejected := a.rejected ++ (pushLoop cfg a.x ds).rejected.map (·.1)
+                   skipped := a.skipped ++ (pushLoop cfg a.x ds).skipped.map (·.1) }
+        have hq := maybeFlush_quiet F cfg sz
+          { a with mailbox := rest, x := (pushLoop cfg a.x ds).x
+                   accepted := a.accepted ++ (pushLoop cfg a.x ds).accepted.map (·.1)
+                   rejected := a.rejected ++ (pushLoop cfg a.x ds).rejected.map (·.1)
+                   skipped := a.skipped ++ (pushLoop cfg a.x ds).skipped.map (·.1) }
+        refine ⟨by rw [s8]; exact hal, by rw [s9]; exact hbr, by rw [s2]; simp only; omega, ?_,
+          by rw [s5]; simp [hr, r1], by rw [s6]; simp [hs, r2], by rw [s7]; exact hd, by rw [s2]; exact hns'⟩
+        rw [s1, s2]; simp only at hq ⊢; rw [r3] at hq; omega
+      | flush =>
+        simp only [handle]
+        obtain ⟨_, s1, s2, _, _, s5, s6, s7, s8, s9, _⟩ := doFlush_spec F sz { a with mailbox := rest }
+        have hq := doFlush_quiet F sz { a with mailbox := rest }
+        simp only [msgEst] at hsz
+        refine ⟨by rw [s8]; exact hal, by rw [s9]; exact hbr, by rw [s2]; simp only; omega, ?_, by rw [s5]; exact hr, by rw [s6]; exact hs, by rw [s7]; exact hd, by rw [s2]; exact hns'⟩
+        rw [s1, s2]; simp only at hq ⊢; omega
+      | tick =>
+        simp only [handle]
+        obtain ⟨_, s1, s2, _, _, s5, s6, s7, s8, s9, _⟩ := maybeFlush_spec F cfg sz { a with mailbox := rest }
+        have hq := maybeFlush_quiet F cfg sz { a with mailbox := rest }
+        simp only [msgEst] at hsz
+        refine ⟨by rw [s8]; exact hal, by rw [s9]; exact hbr, by rw [s2]; simp only; omega, ?_, by rw [s5]; exact hr, by rw [s6]; exact hs, by rw [s7]; exact hd, by rw [s2]; exact hns'⟩
+        rw [s1, s2]; simp only at hq ⊢; omega
+      | shutdown => exact absurd (List.mem_cons_self) hns
+
+/-- a whole run that keeps running, with fewer events than the mailbox holds messages and all
+    bytes handed in below the back-pressure threshold, stays quiet -/
+theorem quiet_run (F : Oracle) (cfg : WbCfg) (cap : Nat) (evs : List Ev) (a : A) (k E : Nat)
+    (hq : Quiet a k E) (hrun : ∀ e ∈ evs, e.keepsRunning = true)
+    (hk : k + evs.length ≤ cap) (hE : E + evsEst evs ≤ cfg.backpressure) :
+    Quiet (run F cfg cap a evs) (k + evs.length) (E + evsEst evs) := by
+  induction evs generalizing a k E with
+  | nil => simpa [run, evsEst] using hq
+  | cons e rest ih =>
+    simp only [List.length_cons, evsEst] at hk hE ⊢
+    have h1 := quiet_step F cfg cap a e k E hq (hrun e (by simp)) (by omega) (by omega)
+    have := ih (step F cfg cap a e) (k + 1) (E + evEst e) h1 (fun x hx => hrun x (by simp [hx])) (by omega) (by omega)
+    have e1 : k + 1 + rest.length = k + (rest.length + 1) := by omega
+    have e2 : E + evEst e + evsEst rest = E + (evEst e + evsEst rest) := by omega
+    rw [e1, e2] at this
+    exact this
+
+end StreamActor
+end RedisVerif
